@@ -1,4 +1,5 @@
 import Dbg.Model.MspSeq
+import Dbg.Props.C07
 /-! # C07/C08 (continued) — the deprecated `simple_scan` is `Scanner::scan` with the permutation score
 
 so everything C07 proves about the intervals of `scan` (tiling, minimality of the minimizer, lengths) holds for it, and its
@@ -25,5 +26,43 @@ theorem simpleScan_eq_scan (k p : Nat) (seq : Array Base) (perm : Array Nat) (rc
         rw [hs] at h
         simp only [Option.some.injEq] at h
         exact ⟨ivs, rfl, h.symm⟩
+
+/-- **C07 for `simple_scan`.** Inside the guard (1 ≤ p ≤ min k 8, k ≤ |seq| < 2^32, 2k−p ≤ 65535, permutation entries below 2^64 and
+    covering every p-mer of the sequence) `simple_scan` returns, and its intervals are those of a scan satisfying the whole of
+    C07 for the permutation score — tiling, lengths, minimality and maximal extent — reduced to `(bucket, start, len)`. -/
+theorem C07_simple_scan (k p : Nat) (seq : Array Base) (perm : Array Nat) (rcMode : Bool)
+    (h₁ : 1 ≤ p) (h₂ : p ≤ k) (h₃ : k ≤ seq.size) (h₄ : seq.size < 2 ^ 32) (h₅ : 2 * k - p ≤ 65535) (h₈ : p ≤ 8)
+    (h₆ : ∀ x ∈ perm.toList, x < 2 ^ 64)
+    (h₇ : ∀ q, q < seq.size + 1 - p → rank (window seq p q) < perm.size ∧ rank (rc (window seq p q)) < perm.size) :
+    ∃ ivs, HoldsC07 seq (permScore perm rcMode) k p ivs ∧
+      simpleScan k p seq perm rcMode = some (ivs.map fun iv => (rank (minRc iv.mini) % 2 ^ 16, iv.start, iv.len)) := by
+  have hsc : ∀ w, permScore perm rcMode w < 2 ^ 64 := by
+    intro w
+    have hget : ∀ i : Nat, (perm[i]?).getD 0 < 2 ^ 64 := by
+      intro i
+      cases hi : perm[i]? with
+      | none => simp
+      | some x =>
+        simp only [Option.getD_some]
+        have hlt : i < perm.size := (Array.getElem?_eq_some_iff.mp hi).1
+        have hx : perm[i] = x := (Array.getElem?_eq_some_iff.mp hi).2
+        exact h₆ x (by rw [← hx]; exact Array.getElem_mem_toList hlt)
+    unfold permScore
+    simp only
+    split
+    · exact Nat.lt_of_le_of_lt (Nat.min_le_left _ _) (hget _)
+    · exact hget _
+  obtain ⟨ivs, hs, hh⟩ := C07_scan_valid seq (permScore perm rcMode) k p h₁ h₂ h₃ h₄ h₅ hsc
+  refine ⟨ivs, hh, ?_⟩
+  unfold simpleScan
+  rw [if_neg (by simp; exact ⟨h₃, h₈, h₄⟩)]
+  simp only
+  have hin : ((List.range (seq.size + 1 - p)).all fun q =>
+      decide (rank (window seq p q) < perm.size) && (!rcMode || decide (rank (rc (window seq p q)) < perm.size))) = true := by
+    rw [List.all_eq_true]
+    intro q hq
+    obtain ⟨a, b⟩ := h₇ q (List.mem_range.mp hq)
+    simp [a, b]
+  rw [if_neg (by simp [hin]), hs]
 
 end Msp
